@@ -31,7 +31,11 @@ impl GetTime for Clock { fn now(&self) -> Tai64 { self.now } }
 #[derive(Clone, Copy, Debug, PartialEq, Eq)] pub struct Consensus(pub u64);
 pub struct SealedBlock { pub entity: Block, pub consensus: Consensus }
 pub struct Changes;
-pub struct ExecutionResult { pub block: Block, pub skipped_transactions: Vec<(u64, u64)>, pub tx_status: u8, pub events: u8 }
+/// the skipped-transactions list of an execution result: at most one entry, iterated like the real Vec
+pub struct Skipped(pub Option<(u64, u64)>);
+impl Skipped { pub fn is_empty(&self) -> bool { self.0.is_none() } }
+impl IntoIterator for Skipped { type Item = (u64, u64); type IntoIter = core::option::IntoIter<(u64, u64)>; fn into_iter(self) -> Self::IntoIter { self.0.into_iter() } }
+pub struct ExecutionResult { pub block: Block, pub skipped_transactions: Skipped, pub tx_status: u8, pub events: u8 }
 pub struct UncommittedExecutionResult<C>(pub ExecutionResult, pub C);
 impl<C> From<UncommittedExecutionResult<C>> for (ExecutionResult, C) { fn from(u: UncommittedExecutionResult<C>) -> Self { (u.0, u.1) } }
 pub struct ImportResult { pub sealed: SealedBlock }
@@ -40,14 +44,16 @@ pub struct Uncommitted<R, C>(pub R, pub C);
 impl<R, C> Uncommitted<R, C> { pub fn new(r: R, c: C) -> Self { Uncommitted(r, c) } }
 pub enum TransactionsSource { TxPool, SpecificTransactions(u8) }
 /// one shared event log: 1 = produce, 2 = seal, 3 = import
-pub struct Log { pub events: RefCell<[u8; 4]>, pub n: Cell<usize> }
-impl Log { pub fn push(&self, e: u8) { let k = self.n.get(); if k < 4 { self.events.borrow_mut()[k] = e; } self.n.set(k + 1); } }
-pub struct Signer { pub available: bool, pub seal_fails: bool, pub sealed: Cell<Option<Block>>, pub log: Arc<Log> }
+pub struct Log;
+static mut LOG_EVENTS: [u8; 4] = [0; 4];
+static mut LOG_N: usize = 0;
+impl Log { pub fn push(&self, e: u8) { unsafe { let k = LOG_N; if k < 4 { LOG_EVENTS[k] = e; } LOG_N = k + 1; } } }
+pub struct Signer { pub available: bool, pub seal_fails: bool, pub sealed: Cell<Option<Block>>, pub log: Log }
 impl Signer {
     pub fn is_available(&self) -> bool { self.available }
     pub async fn seal_block(&self, b: &Block) -> anyhow::Result<Consensus> { self.log.push(2); self.sealed.set(Some(*b)); if self.seal_fails { Err(anyhow!("seal")) } else { Ok(Consensus(b.height.0 as u64 ^ 0xabc)) } }
 }
-pub struct Importer { pub fails: bool, pub committed: Cell<Option<(Block, Consensus)>>, pub log: Arc<Log>,
+pub struct Importer { pub fails: bool, pub committed: Cell<Option<(Block, Consensus)>>, pub log: Log,
     // reconciliation side: what latest_block_height answers (before / after an import attempt), which reconciliation import fails, what was imported
     pub db_height: Cell<Option<u32>>, pub db_height_after_import: Option<u32>, pub db_read_fails: bool, pub fail_import_of: Option<u32>, pub imported: RefCell<[u32; 3]>, pub n_imported: Cell<usize> }
 impl Importer {
@@ -74,7 +80,7 @@ pub enum TaskNextAction { Continue, Stop, ErrorContinue(anyhow::Error) }
 pub struct Reconciliation { pub answer: Cell<Option<LeaderState>>, pub fails: bool, pub asked_for: Cell<Option<u32>> }
 impl Reconciliation { pub async fn leader_state(&self, next: BlockHeight) -> anyhow::Result<LeaderState> { self.asked_for.set(Some(next.0)); if self.fails { return Err(anyhow!("port")) } Ok(self.answer.take().unwrap_or(LeaderState::ReconciledFollower)) } }
 pub async fn sleep_until(_d: Instant) {}
-pub struct Producer { pub fails: bool, pub asked: Cell<Option<(BlockHeight, Tai64)>>, pub log: Arc<Log> }
+pub struct Producer { pub fails: bool, pub asked: Cell<Option<(BlockHeight, Tai64)>>, pub log: Log }
 
 //@ extract crates/services/consensus_module/poa/src/config.rs enum Trigger keep_attrs=1
 //@ end
@@ -101,7 +107,7 @@ impl<C: GetTime> MainTask<C> {
         self.block_producer.log.push(1);
         self.block_producer.asked.set(Some((height, block_time)));
         if self.block_producer.fails { return Err(anyhow!("produce")) }
-        Ok(UncommittedExecutionResult(ExecutionResult { block: Block { height, time: block_time }, skipped_transactions: Vec::new(), tx_status: 0, events: 0 }, Changes))
+        Ok(UncommittedExecutionResult(ExecutionResult { block: Block { height, time: block_time }, skipped_transactions: Skipped(None), tx_status: 0, events: 0 }, Changes))
     }
 }
 
@@ -175,10 +181,10 @@ fn c24_next_time() {
 
 #[cfg(kani)]
 fn mk_task(h: u32, last: Tai64, created: Instant, trigger: Trigger, now: Tai64, available: bool, pf: bool, sf: bool, imf: bool) -> MainTask<Clock> {
-    let log = Arc::new(Log { events: RefCell::new([0; 4]), n: Cell::new(0) });
-    MainTask { reconciliation_port: Reconciliation { answer: Cell::new(None), fails: false, asked_for: Cell::new(None) }, reconciliation_watermark: Arc::new(std::sync::atomic::AtomicU32::new(0)), normal_production_calls: Cell::new(0), signer: Arc::new(Signer { available, seal_fails: sf, sealed: Cell::new(None), log: log.clone() }),
-        block_producer: Producer { fails: pf, asked: Cell::new(None), log: log.clone() },
-        block_importer: Importer { fails: imf, committed: Cell::new(None), log, db_height: Cell::new(None), db_height_after_import: None, db_read_fails: false, fail_import_of: None, imported: RefCell::new([0; 3]), n_imported: Cell::new(0) },
+    unsafe { LOG_N = 0; LOG_EVENTS = [0; 4]; }
+    MainTask { reconciliation_port: Reconciliation { answer: Cell::new(None), fails: false, asked_for: Cell::new(None) }, reconciliation_watermark: Arc::new(std::sync::atomic::AtomicU32::new(0)), normal_production_calls: Cell::new(0), signer: Arc::new(Signer { available, seal_fails: sf, sealed: Cell::new(None), log: Log }),
+        block_producer: Producer { fails: pf, asked: Cell::new(None), log: Log },
+        block_importer: Importer { fails: imf, committed: Cell::new(None), log: Log, db_height: Cell::new(None), db_height_after_import: None, db_read_fails: false, fail_import_of: None, imported: RefCell::new([0; 3]), n_imported: Cell::new(0) },
         last_height: BlockHeight(h), last_timestamp: last, last_block_created: created, trigger, clock: Clock { now } }
 }
 
@@ -201,9 +207,7 @@ fn c24_produce_block() {
     let deadline = Instant { tick: kani::any(), elapsed: Duration::ZERO };
     let r = kani::block_on(task.produce_block(BlockHeight(h), Tai64(t), TransactionsSource::TxPool, deadline));
     let ok = r.is_ok();
-    let log = task.block_importer.log.clone();
-    let n = log.n.get();
-    let ev = *log.events.borrow();
+    let (n, ev) = unsafe { (LOG_N, LOG_EVENTS) };
     kani::cover!(ok, "[C24.poa-time.produce.cover-produced]");
     kani::cover!(!ok && available && t >= t0 && !pf && !sf && imf, "[C24.poa-time.produce.cover-import-failure]");
     kani::assert(ok == (available && t >= t0 && !pf && !sf && !imf), "[C24.poa-time.produce.succeeds-iff-key-available-timestamp-not-decreasing-and-all-ports-succeed]");
@@ -230,7 +234,7 @@ fn c24_produce_block() {
 // reconciled block only after that block was imported successfully, and a failed import never advances it (beyond what
 // the database itself reports).
 #[cfg(kani)]
-fn reconcile_case(kind: u8, n_blocks: u8) {
+fn reconcile_case(kind: u8, n_blocks: u8, fail_sel: u8) {
     let (h0, t0): (u32, u64) = (kani::any(), kani::any());
     kani::assume(h0 < u32::MAX - 4);
     let mut task = mk_task(h0, Tai64(t0), Instant { tick: 0, elapsed: Duration::ZERO }, Trigger::Never, Tai64(0), true, false, false, false);
@@ -243,10 +247,11 @@ fn reconcile_case(kind: u8, n_blocks: u8) {
     let db_after: Option<u32> = if kani::any() { Some(kani::any()) } else { None };
     kani::assume(db_after != Some(u32::MAX));
     task.block_importer.db_height_after_import = db_after;
-    let fail_of: Option<u32> = if kani::any() { Some(kani::any()) } else { None };
-    task.block_importer.fail_import_of = fail_of;
     let (b1h, b1t, b2h, b2t): (u32, u64, u32, u64) = (kani::any(), kani::any(), kani::any(), kani::any());
     kani::assume(b1h != u32::MAX && b2h != u32::MAX);
+    // which reconciliation import fails: none, the first block's, the second block's
+    let fail_of: Option<u32> = match fail_sel { 0 => None, 1 => Some(b1h), _ => Some(b2h) };
+    task.block_importer.fail_import_of = fail_of;
     let mkb = |h: u32, t: u64| SealedBlock { entity: Block { height: BlockHeight(h), time: Tai64(t) }, consensus: Consensus(0) };
     let answer = match kind { 0 => LeaderState::ReconciledFollower, 1 => LeaderState::ReconciledLeader,
         _ => LeaderState::UnreconciledBlocks(Blocks { items: [if n_blocks >= 1 { Some(mkb(b1h, b1t)) } else { None }, if n_blocks >= 2 { Some(mkb(b2h, b2t)) } else { None }], i: 0 }) };
@@ -280,7 +285,7 @@ fn reconcile_case(kind: u8, n_blocks: u8) {
             i += 1;
         }
     }
-    if kind == 2 && n_blocks == 2 { kani::cover!(wi == 2 && fail_of == Some(b1h), "[C24.poa-time.reconcile.cover-first-import-fails-second-proceeds]"); }
+    if kind == 2 && n_blocks == 2 && fail_sel == 1 { kani::cover!(wi == 2, "[C24.poa-time.reconcile.cover-first-import-fails-second-proceeds]"); }
     kani::assert(task.last_height == BlockHeight(h) && task.last_timestamp == Tai64(t), "[C24.poa-time.reconcile.height-advances-only-by-successful-imports-or-the-databases-own-height]");
     kani::assert(task.last_height.0 >= h0, "[C24.poa-time.reconcile.height-never-goes-backwards]");
     let imp = *task.block_importer.imported.borrow();
@@ -291,19 +296,27 @@ fn reconcile_case(kind: u8, n_blocks: u8) {
 //@ harness kind=bounded tier=thorough bound="at most 2 blocks to reconcile per call" timeout=3600 extra="-Z async-lib --default-unwind 4"
 #[cfg(kani)]
 #[kani::proof]
-fn c24_reconcile_follower() { reconcile_case(0, 0); }
+fn c24_reconcile_follower() { reconcile_case(0, 0, 0); }
 //@ harness kind=bounded tier=thorough bound="at most 2 blocks to reconcile per call" timeout=3600 extra="-Z async-lib --default-unwind 4"
 #[cfg(kani)]
 #[kani::proof]
-fn c24_reconcile_leader() { reconcile_case(1, 0); }
+fn c24_reconcile_leader() { reconcile_case(1, 0, 0); }
 //@ harness kind=bounded tier=thorough bound="at most 2 blocks to reconcile per call" timeout=3600 extra="-Z async-lib --default-unwind 4"
 #[cfg(kani)]
 #[kani::proof]
-fn c24_reconcile_one_block() { reconcile_case(2, 1); }
+fn c24_reconcile_one_block() { reconcile_case(2, 1, kani::any::<u8>() % 2); }
 //@ harness kind=bounded tier=quick bound="at most 2 blocks to reconcile per call" timeout=3000 extra="-Z async-lib --default-unwind 4"
 #[cfg(kani)]
 #[kani::proof]
-fn c24_reconcile_two_blocks() { reconcile_case(2, 2); }
+fn c24_reconcile_two_blocks_all_imports_succeed() { reconcile_case(2, 2, 0); }
+//@ harness kind=bounded tier=quick bound="at most 2 blocks to reconcile per call" timeout=3000 extra="-Z async-lib --default-unwind 4"
+#[cfg(kani)]
+#[kani::proof]
+fn c24_reconcile_two_blocks_first_import_fails() { reconcile_case(2, 2, 1); }
+//@ harness kind=bounded tier=quick bound="at most 2 blocks to reconcile per call" timeout=3000 extra="-Z async-lib --default-unwind 4"
+#[cfg(kani)]
+#[kani::proof]
+fn c24_reconcile_two_blocks_second_import_fails() { reconcile_case(2, 2, 2); }
 
 // Vacuity canary
 //@ harness kind=canary tier=quick expect=C24.poa-time.canary.time-never-advances timeout=900
